@@ -78,14 +78,34 @@ def run(ctx, rep):
               key(cof, None, "adoption resolves the strategy from the hash part"), cof)
     v = prog.own_method("BetfairOrder", "is_valid_customer_order_ref_character")
     cfg = ctx.cfg(v)
-    lens = [n for n in cfg.live_nodes() if n.kind == "cond" and utext(n.exprs[0]) == "len(c) != 1"]
-    good = len(lens) == 1
-    if good:
-        t = [cfg.nodes[m] for l, m in lens[0].succ if l == "T"]
-        good = all(x.kind == "return" and utext(x.ast.value) == "False" for x in t)
-        other = [n for n in cfg.live_nodes() if n.kind == "return" and n not in t]
-        good = good and [utext(x.ast.value) for x in other] == ["c in VALID_BETFAIR_CUSTOMER_ORDER_REF_CHARACTERS"]
-    rep.check(good, "R1", key(v, None, "a separator has exactly one character and belongs to the valid set"), v)
+    # truth table over (exactly one character, member of the valid set)
+    import itertools
+    p0 = v.params[-1]
+    memb = "%s in VALID_BETFAIR_CUSTOMER_ORDER_REF_CHARACTERS" % p0
+    bad = []
+    for one, valid in itertools.product([True, False], repeat=2):
+        seen, todo, outs = set(), [cfg.entry], set()
+        while todo:
+            nid = todo.pop()
+            if nid in seen:
+                continue
+            seen.add(nid)
+            n = cfg.nodes[nid]
+            if n.kind == "return":
+                t = utext(n.ast.value) if n.ast.value is not None else "None"
+                outs.add({"True": True, "False": False, memb: valid}.get(t, t))
+                continue
+            if n.kind == "cond":
+                t = utext(n.exprs[0])
+                val = one if t == "len(%s) == 1" % p0 else (valid if t == memb else None)
+                if val is not None:
+                    todo += [m for l, m in n.succ if l == ("T" if val else "F")]
+                    continue
+            todo += [m for l, m in n.succ if l != "exc"]
+        if outs != {one and valid}:
+            bad.append("one character=%s, in the valid set=%s -> %s" % (one, valid, sorted(map(str, outs))))
+    good = not bad
+    rep.check(good, "R1", key(v, None, "a separator has exactly one character and belongs to the valid set"), v, None, "; ".join(bad))
 
     # ------------------------------------------------------------------ R2 length
     bi = prog.own_method("BaseOrder", "__init__")
